@@ -17,3 +17,6 @@ Definition pipeline_safe (ref : N) (rs : list N) : outcome (list (part bytes)) :
 (* observation of one pipeline run: the detected data_coding, outcome class, per part header entries and payload *)
 Definition pipeline_case (detect : list N -> label) (ref : N) (rs : list N) (dc : N) (cls : N) (ps : list (udh * bytes)) : bool :=
   (dc_of_label (detect rs) =? dc) && parts_obs_ok beq_bytes (compose_label (detect rs) ref rs) cls ps.
+
+(* helper for the generated long texts: a block of runes repeated k times *)
+Definition rept (k : N) (b : list N) : list N := List.concat (repeat b (N.to_nat k)).
